@@ -67,6 +67,12 @@ class Check:
         distinct failure key by re-executing its scenario, and records it."""
         if not cmds:
             return []
+        keyfn0 = keyfn
+
+        def keyfn(b):          # a call that did not return has none of the result fields the per-property keys look at
+            if "crashed" in b["ev"]:
+                return "call_did_not_return.%s" % b["ev"].get("op", "?")
+            return keyfn0(b)
         drvpath = self.drv()
         if variant == "glue":          # the arm64 Go glue transplanted onto the amd64 kernels (vlib/glue.py)
             from . import glue as _glue
